@@ -4,9 +4,12 @@ import PsModel.Spec.C05
 /-!
 Line-protocol front end of the C05 models.
 
-    C05 (<dec|wu|decn|wun> <legacy|new> checkNow hold holdFalse b0 ((t kind a) …) timeout)
-    checkNow, b0 : 0|1 ;  hold, holdFalse, timeout : none | milliseconds ;  kind : T | F | S | U
+    C05 (<dec|wu|decn|wun> <legacy|new> checkNow hold holdFalse b0 ((t kind a) …) timeout [tt])
+    checkNow, b0, tt : 0|1 ;  hold, holdFalse, timeout : none | milliseconds ;  kind : T | F | S | U
     →  ok (model ((t a) …)) (spec ((t a) …)) (noties 0|1)
+
+`tt` (decorators only): the function also carries a start-up `@time_trigger` – its runs are listed after the state runs
+as `(0 time)`.
 
 `dec`: all runs of the decorated function; `wu`: the first return of `task.wait_until` (at most one entry; `(T timeout)`
 when the overall timeout wins); `decn` / `wun`: the trigger consists of any-change names only.
@@ -36,10 +39,12 @@ def showRet : WRet → String
   | .run r => s!"(({r.1} {r.2}))"
   | .timeout t => s!"(({t} timeout))"
 
-/-- `names` = the trigger consists of any-change names only (`namesOnly`); `tmo` = overall timeout of `task.wait_until` -/
-def handle (x : Sexp) : String :=
-  match x with
-  | .list [.atom api, .atom sub, cn, s, h, b, hs, tm] =>
+def showRunsT (rs : List Run) (n : Nat) : String :=
+  "(" ++ " ".intercalate (rs.map (fun r => s!"({r.1} {r.2})") ++ List.replicate n "(0 time)") ++ ")"
+
+/-- `names` = the trigger consists of any-change names only (`namesOnly`); `tmo` = overall timeout of `task.wait_until`;
+`tt` = the function also carries a start-up time trigger -/
+def handleT (api sub : String) (cn s h b hs tm : Sexp) (tt : Bool) : String :=
     match cn.bool?, optNat? s, optNat? h, b.bool?, Sexp.listOf? evt? hs, optNat? tm with
     | some cn, some s, some h, some b0, some hist, some tmo =>
       let names := api == "decn" || api == "wun"
@@ -53,8 +58,11 @@ def handle (x : Sexp) : String :=
       if !isWu && !(api == "dec" || api == "decn") then "err bad-api"
       else if !(sub == "legacy" || sub == "new") then "err bad-subsystem"
       else if !isWu then
-        let m := if sub == "legacy" then Legacy.holdRuns cfg b0 hist else New.holdRuns cfg b0 hist
-        s!"ok (model {showRuns m}) (spec {showRuns spec}) (noties {nt})"
+        -- legacy: ONE trigger_watch loop serves the time trigger and the state trigger (`holdRunsT`); new: the
+        -- `@time_trigger` is a decorator of its own and runs the function once at start-up
+        let m : List Run × Nat :=
+          if sub == "legacy" then Legacy.holdRunsT cfg tt b0 hist else (New.holdRuns cfg b0 hist, if tt then 1 else 0)
+        s!"ok (model {showRunsT m.1 m.2}) (spec {showRunsT spec (if tt then 1 else 0)}) (noties {nt})"
       else
         match tmo with
         | none =>
@@ -64,6 +72,14 @@ def handle (x : Sexp) : String :=
           let m := if sub == "legacy" then WaitUntil.firstReturnT T cfg b0 hist else New.firstReturnT T cfg b0 hist
           s!"ok (model {showRet m}) (spec {showRet (cutT T spec.head?)}) (noties {nt})"
     | _, _, _, _, _, _ => "err parse"
+
+def handle (x : Sexp) : String :=
+  match x with
+  | .list [.atom api, .atom sub, cn, s, h, b, hs, tm] => handleT api sub cn s h b hs tm false
+  | .list [.atom api, .atom sub, cn, s, h, b, hs, tm, tt] =>
+    match tt.bool? with
+    | some tt => handleT api sub cn s h b hs tm tt
+    | none => "err parse"
   | _ => "err bad-command"
 
 end PsModel.C05
